@@ -1094,10 +1094,15 @@ def _run_prop(res, item):
                         # The output time IS the event time: whether this output is the state just before or just after
                         # the change is decided by the last bit of the solver's event root (celestial.py compares it with
                         # the output time by ==): either side is accepted (boundary case on the predicate's own threshold).
-                        res.either_way += 1
-                        pre = ref - delta
-                        if fw.maxabs(np.asarray(out[:, k, j])[3:], pre[3:]) < fw.maxabs(np.asarray(out[:, k, j])[3:], ref[3:]):
-                            ref = pre
+                        # The event's own record settles it: fired AT or before the output time -> this output lies after
+                        # the change (what a separate propagate(t0, t_out) with the same schedule returns, the event on its
+                        # end point included); only a root reported one ulp LATE leaves the output before the change.
+                        late_root = not ev.fired_at or ev.fired_at[0] > t1
+                        if late_root:
+                            res.either_way += 1
+                            pre = ref - delta
+                            if fw.maxabs(np.asarray(out[:, k, j])[3:], pre[3:]) < fw.maxabs(np.asarray(out[:, k, j])[3:], ref[3:]):
+                                ref = pre
                     ctx.compare("restart_bulk", orb, out[:, k, j], ref, ctx.tp(a, e), ctx.tv(a, e), nontrivial=True,
                                 detail=label + ev.suffix, extra={"K": K, "col": k, "j": j, "event_frac": f, "event_time": t1, "fired": ev.calls})
     return ctx
@@ -1824,8 +1829,9 @@ def _run_sk_scenario(res, item):
 # must get the direct result: events before a call's start are over, events after its end are not due yet.
 # Event specs: ("eci" | "ntw", fraction of the span, delta-v [km/s]) or ("burn", start fraction, end fraction, NTW acceleration
 # [km/s^2]).  Every schedule has >= 1 event in the first and >= 1 in the last leg of every split of ST_SPLITS, and no event
-# closer than 0.02 spans (>= 6 s) to a split point, an output time or another event: an event exactly ON a call boundary
-# belongs to both calls by the library's own event function (zero at its time) and is outside this family.
+# closer than 0.02 spans (>= 6 s) to a split point or an output time: an event exactly ON a call boundary belongs to both
+# calls by the library's own event function (zero at its time) and is outside this family.  Two events of one schedule
+# are either >= 0.02 spans apart or exactly coincident (the schedules added below the table).
 ST_SCHEDULES = {
     "eci_eci": [("eci", 0.25, [0.0, 0.010, 0.005]), ("eci", 0.75, [0.003, -0.002, 0.001])],
     "ntw_eci_ntw": [("ntw", 0.2, [0.002, 0.008, -0.004]), ("eci", 0.6, [-0.005, 0.004, 0.006]), ("ntw", 0.85, [0.0, -0.006, 0.003])],
@@ -1834,13 +1840,21 @@ ST_SCHEDULES = {
     "burn_eci": [("burn", 0.1, 0.3, [1.0e-5, 2.0e-5, 0.0]), ("ntw", 0.78, [0.001, 0.007, -0.002])],  # stale (finished) finite burn
     "eci_burn_across_ntw": [("eci", 0.15, [0.006, 0.0, 0.003]), ("burn", 0.35, 0.65, [0.0, -2.0e-5, 1.0e-5]), ("ntw", 0.9, [0.0, 0.005, 0.0])],  # a leg starts mid-burn
 }
+# COINCIDENT events of one schedule (same instant to the bit): an impulse where a burn starts, a burn starting where the
+# previous one ends, in both list orders -- the solver reports one terminal event per stop and the others must not be lost
+ST_SCHEDULES.update({
+    "eci_at_burn_start": [("eci", 0.4, [0.0, 0.006, -0.003]), ("burn", 0.4, 0.66, [0.0, 2.0e-5, 1.0e-5]), ("ntw", 0.88, [0.0, 0.004, 0.0])],
+    "burn_start_at_eci": [("burn", 0.4, 0.66, [0.0, 2.0e-5, 1.0e-5]), ("eci", 0.4, [0.0, 0.006, -0.003]), ("ntw", 0.88, [0.0, 0.004, 0.0])],
+    "burn_end_at_burn_start": [("burn", 0.15, 0.4, [1.0e-5, -2.0e-5, 0.0]), ("burn", 0.4, 0.66, [0.0, 2.0e-5, 1.0e-5]), ("eci", 0.88, [0.002, 0.0, 0.004])],
+    "burn_start_at_burn_end": [("burn", 0.4, 0.66, [0.0, 2.0e-5, 1.0e-5]), ("burn", 0.15, 0.4, [1.0e-5, -2.0e-5, 0.0]), ("eci", 0.88, [0.002, 0.0, 0.004])],
+})
 ST_PAST_EVENT = ("eci", -0.2, [0.007, -0.003, 0.009])  # an impulse from before t0 still in the list (t0 > 0 only): never due in any call
 ST_SPLITS = {"two_legs": [0.5], "three_legs": [0.45, 0.72]}
 ST_BULK_GRID = [0.33, 0.5, 0.57, 0.77, 1.0]  # output times of propagateBulk; the two-leg bulk split is at 0.5
 ST_VARIANTS = ["full_fresh", "full_shared", "pruned"]
 ST_VARIANTS_LEAN = ["full_fresh", "pruned"]  # quick tier, SP (a short SP call with DOP853 costs 20 ms, every event a restart)
 ST_RSO = 10001
-ST_SP_SCHEDULES = ["eci_eci", "eci_burn_across_ntw"]
+ST_SP_SCHEDULES = ["eci_eci", "eci_burn_across_ntw", "eci_at_burn_start"]
 ST_QUICK_SP = "sp_g4"
 
 
